@@ -84,10 +84,29 @@ Proof.
     rewrite bcast_prefix_spec by assumption. reflexivity.
 Qed.
 
-(* finding: an IPv6 netmask in address form -- the form psutil reports IPv6 netmasks in -- is never turned
-   into a broadcast address (ipaddress.IPv6Network raises, net_if_addrs() swallows it) *)
-Theorem ipv6_addrform_refuted : forall a k b,
-  post_bcast Windows {| n_fam := 1; n_addr := []; n_addrz := a; n_mask := MAddr (netmask_of 128 k); n_bcast := b |} = b.
+(* IPv6, netmask in address form (the form psutil's native layers use): converted through its number of one bits *)
+Lemma popcount_roundtrip_all :
+  forallb (fun k => popcount (netmask_of 128 k) =? k) (zseq 0 129) = true.
+Proof. vm_compute. reflexivity. Qed.
+Lemma popcount_netmask k : 0 <= k <= 128 -> popcount (netmask_of 128 k) = k.
+Proof.
+  intro Hk. pose proof (proj1 (forallb_forall _ _) popcount_roundtrip_all k) as H.
+  assert (Hin : In k (zseq 0 129)) by (apply In_zseq; cbn; lia).
+  specialize (H Hin). cbv beta in H. apply Z.eqb_eq in H. exact H.
+Qed.
+
+Theorem frontend_broadcast_v6_addr : forall a k, 0 <= a < 2 ^ 128 -> 0 <= k <= 128 ->
+  post_bcast Windows {| n_fam := 1; n_addr := []; n_addrz := a; n_mask := MAddr (netmask_of 128 k); n_bcast := None |}
+  = Some (spec_bcast 128 a k).
+Proof.
+  intros a k Ha Hk. unfold post_bcast. cbn [n_fam n_mask n_addrz n_bcast].
+  change (1 =? 0) with false. change (1 =? 1) with true. cbv iota.
+  rewrite popcount_netmask by assumption. rewrite bcast_prefix_spec by assumption. reflexivity.
+Qed.
+
+(* the code before fix 0a57bb9 never turned an address-form IPv6 netmask into a broadcast address *)
+Theorem ipv6_addrform_legacy_refuted : forall a k b,
+  post_bcast_pre_0a57bb9 Windows {| n_fam := 1; n_addr := []; n_addrz := a; n_mask := MAddr (netmask_of 128 k); n_bcast := b |} = b.
 Proof. intros. reflexivity. Qed.
 
 (* broadcast is None-preserving for a mask that is neither a netmask nor a host mask (ipaddress raises) *)
